@@ -4380,6 +4380,7 @@ int KSI_VerificationRule_PublicationsFilePublicationTimeMatchesExtenderResponse(
 	KSI_Integer *aggrTime = NULL;
 	KSI_Integer *pubDataPubTime = NULL;
 	KSI_Integer *extPubTime = NULL;
+	KSI_Integer *extAggrTime = NULL;
 	KSI_CalendarHashChain *extCalHashChain = NULL;
 	KSI_PublicationRecord *pubRec = NULL;
 	VerificationTempData *tempData = NULL;
@@ -4462,6 +4463,21 @@ int KSI_VerificationRule_PublicationsFilePublicationTimeMatchesExtenderResponse(
 		KSI_LOG_debug(ctx, "Publications file publication time: %llu.", (unsigned long long)KSI_Integer_getUInt64(pubDataPubTime));
 		KSI_LOG_debug(ctx, "Extended response publication time: %llu.", (unsigned long long)KSI_Integer_getUInt64(extPubTime));
 
+		VERIFICATION_RESULT_ERR(KSI_VER_RES_FAIL, KSI_VER_ERR_PUB_2, step);
+		res = KSI_OK;
+		goto cleanup;
+	}
+
+	/* The extended chain must also start at the signature's own aggregation time. */
+	res = KSI_CalendarHashChain_getAggregationTime(extCalHashChain, &extAggrTime);
+	if (res != KSI_OK) {
+		VERIFICATION_RESULT_ERR(KSI_VER_RES_NA, KSI_VER_ERR_GEN_2, KSI_VERIFY_NONE);
+		KSI_pushError(ctx, res, NULL);
+		goto cleanup;
+	}
+
+	if (!KSI_Integer_equals(aggrTime, extAggrTime)) {
+		KSI_LOG_info(ctx, "Signature aggregation time does not match with extender aggregation time.");
 		VERIFICATION_RESULT_ERR(KSI_VER_RES_FAIL, KSI_VER_ERR_PUB_2, step);
 		res = KSI_OK;
 		goto cleanup;
